@@ -1031,10 +1031,18 @@ def extra_cases(rng, tier):
     if tier == "thorough":
         ops = ops * 3
     yield "C01", c01.chunks(ops, 5)
+    # What PROTOCOLS offer goes through `TransportService::add_known_address` before it reaches the handle's filter: the
+    # c08 area's `known <p> <kind> <port>` op calls it on a real service with a TCP-enabled manager handle and prints the
+    # peer's address book afterwards (kinds: no id / the peer's id / another peer's id / two ids / relay shapes).
+    from . import c08
+    yield "C08", c08.gen_known_cases(rng, tier)
 
 
 def oracle_extra(xpid, case, out):
     from . import mgr_common, c01
+    if xpid == "C08":
+        from . import c08
+        return [dict(v, msg="(real TransportService + manager handle, c08 area) " + v["msg"]) for v in c08.oracle_known(case, out)]
     if xpid == "C01":
         res = []
         for i in range(min(len(case), len(out))):
@@ -1045,6 +1053,9 @@ def oracle_extra(xpid, case, out):
 
 def stats_extra(xpid, case, out, acc):
     from . import mgr_common, c01
+    if xpid == "C08":
+        from . import c08
+        return c08.stats_known(case, out, acc)
     if xpid == "C01":
         return c01.stats(case, out, acc)
     mgr_common.stats_scores(case, out, acc)
